@@ -102,3 +102,132 @@ contract(BASE + 'get_date', props=['C09'],
          params=dict(d=T.union(T.none, T.int, T.real, T.datetime)),
          spec_env=ENV, result=T.opaque,
          ensures=[('non-strings-unchanged', 'result is d')])
+
+
+# ---------------------------------------------------------------------------
+# initialize_from_dict: one constraint per known kind, date bounds re-parsed in
+# BOTH the plain and the {value, precision} form, # / unknown kinds ignored,
+# no key affects another (C09)
+# ---------------------------------------------------------------------------
+
+_parsed = z3.Function('get_date.parsed', StrS, z3.IntSort())
+_parses = z3.Function('get_date.parses', StrS, z3.BoolSort())
+
+
+def _get_date_effect(it, env):
+    d = env['d']
+    if not isinstance(d, (str, SStr)):
+        return d
+    dz = strz(it, d)
+    if it.branch(_parses(dz)):
+        return SDate(_parsed(dz), 'datetime')
+    return d
+
+
+_gd_callee = Contract(BASE + 'get_date', params=dict(d=None), effects=_get_date_effect, result=T.none,
+                      assumed=True, spec_env=ENV, name='get_date',
+                      trusted_note='as a callee: a deterministic function of the text (the parsed instant, or the text itself)')
+
+
+@specfn
+def is_parsed_form_of(it, loaded, text):
+    """loaded == get_date(text): the parsed instant when the text parses, else the text itself."""
+    if not isinstance(text, (str, SStr)):
+        return loaded is text
+    tz = strz(it, text)
+    if isinstance(loaded, SDate):
+        return SBool(z3.And(_parses(tz), loaded.z == _parsed(tz)))
+    if isinstance(loaded, (str, SStr)):
+        return SBool(z3.And(z3.Not(_parses(tz)), strz(it, loaded) == tz))
+    return False
+
+
+_KNOWN = ('type', 'min', 'min_length', 'max', 'max_length', 'sign', 'max_nulls', 'no_duplicates',
+          'allowed_values', 'rex', 'transform')
+
+
+def _ifd_view(it):
+    rc = extract.load_module('tdda/constraints/base.py').classes['DatasetConstraints']
+    o = SObj('DatasetConstraints', {'fields': __import__('collections').OrderedDict()}, label='self')
+    o.repo_class = rc
+    return o
+
+
+def _ifd_setup(it, senv):
+    mod = extract.load_module('tdda/constraints/base.py')
+    fmap = {}
+    for kind in _KNOWN:
+        cname = ''.join(p.title() for p in kind.split('_')) + 'Constraint'
+        if cname in mod.classes:
+            fmap[kind] = mod.classes[cname]
+    it.spec_env['FIELD_CONSTRAINTS_MAP'] = fmap
+
+
+def _in_constraints(it, name):
+    """A field with a date or int type, a min in plain or {value, precision} form, an unrelated known
+    kind, a comment key and an unknown kind - in symbolic positions of value."""
+    is_date = it.path.choose([True, True]) == 0
+    form = it.path.choose([True, True, True])
+    bound = it.fresh_str('bound_text') if is_date else it.fresh(T.int, 'bound_int')
+    prec = it.fresh(T.enum('open', 'closed', 'fuzzy'), 'precision')
+    from collections import OrderedDict as OD
+    f = OD()
+    f['type'] = 'date' if is_date else 'int'
+    if form == 0:
+        f['min'] = bound
+    elif form == 1:
+        f['min'] = OD((('value', bound), ('precision', prec)))
+    else:
+        f['min'] = None
+    f['#note'] = it.fresh_str('comment')
+    f['max_nulls'] = it.fresh(T.int, 'max_nulls')
+    f['frobnicate'] = it.fresh(T.int, 'unknown_value')
+    it.ghost['ifd'] = dict(is_date=is_date, form=form, bound=bound, prec=prec, max_nulls=f['max_nulls'])
+    return OD((('fields', OD((('fld', f),))),))
+
+
+@specfn
+def ifd(it, key):
+    return it.ghost['ifd'][key]
+
+
+contract(BASE + 'DatasetConstraints.initialize_from_dict', props=['C09'],
+         params=dict(in_constraints=T.custom(_in_constraints)), self_view=_ifd_view, on_entry=_ifd_setup,
+         spec_env=dict(ENV, ifd=ifd, is_parsed_form_of=is_parsed_form_of),
+         inline=[BASE + n for n in ('Constraint.__init__', 'Constraint.check_validity', 'constraint_class',
+                                    'MinConstraint.__init__', 'MaxNullsConstraint.__init__',
+                                    'TypeConstraint.__init__', 'FieldConstraints.__init__',
+                                    'DatasetConstraints.add_field', 'warn')],
+         ensures=[('one-constraint-per-known-kind-in-order',
+                   "list(self.fields['fld'].constraints.keys()) == ['type', 'min', 'max_nulls']"),
+                  ('comment-and-unknown-kinds-ignored',
+                   "'#note' not in self.fields['fld'].constraints and 'frobnicate' not in self.fields['fld'].constraints"),
+                  ('other-constraints-unaffected',
+                   "self.fields['fld'].constraints['max_nulls'].value is ifd('max_nulls') "
+                   "and self.fields['fld'].constraints['type'].value == ('date' if ifd('is_date') else 'int')"),
+                  ('date-bound-reparsed-in-plain-and-precision-form',
+                   "ifd('form') == 2 or not ifd('is_date') or "
+                   "is_parsed_form_of(self.fields['fld'].constraints['min'].value, ifd('bound'))"),
+                  ('non-date-bound-kept',
+                   "ifd('form') == 2 or ifd('is_date') or self.fields['fld'].constraints['min'].value is ifd('bound')"),
+                  ('null-bound-kept-null',
+                   "ifd('form') != 2 or self.fields['fld'].constraints['min'].value is None"),
+                  ('precision-kept',
+                   "self.fields['fld'].constraints['min'].precision == (ifd('prec') if ifd('form') == 1 else None)")])
+
+
+class _IFD(Contract):
+    pass
+
+
+_c = REGISTRY[BASE + 'DatasetConstraints.initialize_from_dict']
+_orig_verify = _c.verify
+
+
+def _ifd_verify(registry=None, quick=False):
+    reg = dict(REGISTRY if registry is None else registry)
+    reg[BASE + 'get_date'] = _gd_callee
+    return _orig_verify(reg, quick)
+
+
+_c.verify = _ifd_verify
